@@ -24,3 +24,13 @@ use block_builder::BlockBuilder;
 
 mod filter_block_builder;
 use filter_block_builder::FilterBlockBuilder;
+
+/// Crate-internal re-exports of private table building blocks for the `verif` hooks.
+#[cfg(feature = "verif")]
+pub(crate) mod verif_exports {
+    pub(crate) use super::block_builder::BlockBuilder;
+    pub(crate) use super::block_handle::BlockHandle;
+    pub(crate) use super::filter_block::FilterBlockReader;
+    pub(crate) use super::filter_block_builder::FilterBlockBuilder;
+    pub(crate) use super::footer::Footer;
+}
